@@ -149,7 +149,11 @@ func (e *ZsimEtcd) Deliver(batch bool) {
 			if h.Delete {
 				t = mvccpb.DELETE
 			}
-			evs = append(evs, &clientv3.Event{Type: t, Kv: &mvccpb.KeyValue{Key: []byte(h.Key), Value: []byte(h.Val), ModRevision: h.Rev}})
+			val := h.Val
+			if h.Delete {
+				val = "" // the registry watches without WithPrevKV: a delete event does not carry the value
+			}
+			evs = append(evs, &clientv3.Event{Type: t, Kv: &mvccpb.KeyValue{Key: []byte(h.Key), Value: []byte(val), ModRevision: h.Rev}})
 			if !batch {
 				w.ch <- clientv3.WatchResponse{Events: evs}
 				evs = nil
